@@ -42,6 +42,16 @@ CHECKS = {
             "Hard part on every generated dist program (zero-weight and unlisted values never returned, listed values accepted, two-directional pins); frequency part with exact two-sided binomial tests per entry and per value in a range; distselect/randselect under generated global seeds.",
             "alpha = 1e-9 per run split over 2000 tests; frequencies only for dist fields nothing else constrains, disjoint entries.",
             "5/C15"),
+    "C06": ("exploration",
+            "generated call histories over instance populations; enumerated reference with dynamic references expanded per instance; pinned probes for 'no trace' and binding",
+            "A generated class with two dynamic blocks that read a per-instance constant; histories create instances before/after the target and call randomize_with with plain constraints and Boolean combinations (| & ~) of dynamic references, also through list elements of a holder; every result must lie in class AND this call's inline set evaluated on this very instance; probes check that earlier inline sets leave no trace and that referenced blocks bind to the right object.",
+            "Dynamic blocks are referenced from inline blocks only.",
+            "5/C06"),
+    "C07": ("exploration",
+            "generated class hierarchies, instance populations and constraint_mode toggle histories against a per-instance enabled-block model; pinned probe pairs per block",
+            "Hierarchies with overridden block names, instances top-level / nested / in lists, toggles interleaved with calls and later creations; results must lie in the enumerated set of the most-derived enabled blocks of that very instance; an assignment violating only block B is accepted iff B is off for that instance, probed on every live instance.",
+            "Nested and list instances are toggled through the instance object; every block references a field.",
+            "5/C07"),
     "C10": ("exploration",
             "Hypothesis-generated bin specifications, exhaustive value sweep per specification, differential against an independent bin-partition model",
             "Generated coverpoint specifications (bin / bin_array with every count form, overlapping and unordered ranges, auto-bins, enum auto-bins, ignore/illegal bins, iff by field or callable) sampled with every value of the coverpoint's type; after every sample the per-bin increment vector (regular, ignore, illegal) must equal the reference membership vector.",
